@@ -14,7 +14,7 @@ use serde::{Deserialize, Serialize};
 pub const INFO: PropInfo = PropInfo {
     id: "C05",
     level: "exploration",
-    rule: "cases = (directory tree, pattern word, noglob, cd). Tree: <=12 entries, depth <=3, names from {a b ab .a .b - [ * a] ? sub 'a b'}: regular files, directories (some without search permission, mode 644), symbolic links (to file, to directory, dangling, relative with ../, absolute, to . and .., self-loop). Word: 1-3 components joined by / or //, optional prefix ./ ../ /work/ .// ../work/ /work/sub/../, optional trailing /, component text over {a b s u . - * ? [ ] !} with quoted segments ('..', \"..\", \\c) and parts coming from an unquoted ${v} (active pattern characters, backslash escapes) or a quoted \"${v}\" (literal); 45% of the random words are obtained by generalising the components of a path that exists in the tree (name -> *, x*, *x, one character -> ?, [x]rest, [!y]rest, quoted name, ${v}). The real shell runs `probe WORD` (optionally after `set -f` / `cd sub`) on the simulated OS with the tree under /work; the argument list the probe receives must be the model's: every existing pathname that matches component-wise (leading-period rule, slash only literally, quoted characters literal, . and .. only by literal components), strictly ascending in byte order (=> no duplicate), nothing else; or the word with quotes removed if nothing matches / noglob / no active wildcard. Exhaustive part: 4 (thorough 6) fixed trees x all patterns of <=2 components (thorough: also 3 components over the first 14) over a fixed component alphabet of 26 (thorough 54), plus every 1-component pattern under noglob and after cd; random part: proptest (tree, word) pairs with shrinking. Non-trivial = the word has >=1 component with an active wildcard AND some wildcard component matched >=1 directory entry of the tree (which implies that every earlier component was matched by the tree); distinct by serialised case.",
+    rule: "cases = (directory tree, pattern word, noglob, cd). Tree: <=12 entries, depth <=3, names from {a b ab .a .b - [ * a] ? sub 'a b' \\x a\\b}: regular files, directories (some without search permission, mode 644), symbolic links (to file, to directory, dangling, relative with ../, absolute, to . and .., self-loop). Word: 1-3 components joined by / or //, optional prefix ./ ../ /work/ .// ../work/ /work/sub/../, optional trailing /, component text over {a b s u . - * ? [ ] !} with quoted segments ('..', \"..\", \\c) and parts coming from an unquoted ${v} (active pattern characters, backslash escapes) or a quoted \"${v}\" (literal); 45% of the random words are obtained by generalising the components of a path that exists in the tree (name -> *, x*, *x, one character -> ?, [x]rest, [!y]rest, quoted name, ${v}). The real shell runs `probe WORD` (optionally after `set -f` / `cd sub`) on the simulated OS with the tree under /work; the argument list the probe receives must be the model's: every existing pathname that matches component-wise (leading-period rule, slash only literally, quoted characters literal, . and .. only by literal components), strictly ascending in byte order (=> no duplicate), nothing else; or the word with quotes removed if nothing matches / noglob / no active wildcard. Exhaustive part: 4 (thorough 6) fixed trees x all patterns of <=2 components (thorough: also 3 components over the first 14) over a fixed component alphabet of 26 (thorough 54), plus every 1-component pattern under noglob and after cd; random part: proptest (tree, word) pairs with shrinking. Non-trivial = the word has >=1 component with an active wildcard AND some wildcard component matched >=1 directory entry of the tree (which implies that every earlier component was matched by the tree); distinct by serialised case.",
     assumptions: &[
         "POSIX locale: results sorted by byte value",
         "read permission on directories is always granted (the simulated OS does not model it and the sandbox runs as root): unreadable-directory cases are not generated",
@@ -338,7 +338,7 @@ fn merge(w: Vec<Seg>) -> Vec<Seg> {
 // ---------------------------------------------------------------------------------------------
 // Random generators
 
-const NAMES: [&str; 12] = ["a", "b", "ab", ".a", ".b", "-", "[", "*", "a]", "?", "sub", "a b"];
+const NAMES: [&str; 14] = ["a", "b", "ab", ".a", ".b", "-", "[", "*", "a]", "?", "sub", "a b", "\\x", "a\\b"];
 
 const LINK_TARGETS: [&str; 20] = [
     "a", "b", "ab", "sub", ".a", "-", "*", "nowhere", "../a", "../b", "../sub", "../nowhere", "sub/a", "sub/b", "sub/sub", "/work/a", "/work/sub", "/work/nowhere",
@@ -409,8 +409,10 @@ const WILD: [&str; 22] = [
     "*", "*", "*", "?", "?", "[ab]", "[!a]", "[a-b]", "[]a]", "[[]", "[*?]", "[!.]", "[.-]", "[!-]", ".*", "a*", "*b", "s*", "??", "[", "]", "!",
 ];
 const ACTIVE: [char; 10] = ['a', 'b', '.', '-', '*', '?', '[', ']', '!', 's'];
-const VAR_VALUES: [&str; 20] = [
+const VAR_VALUES: [&str; 24] = [
     "*", "?", "a*", "*b", "[ab]", ".*", "s*", "\\*", "\\?", "\\a", "\\[", "*\\]", "a\\b", "\\.*", "[\\a]", "\\\\", "a\\", "su*", "[!a]*", "ab",
+    // an escaped backslash followed by an active wildcard / an ordinary character
+    "\\\\*", "a\\\\*", "\\\\x", "a\\\\b",
 ];
 
 fn arb_piece() -> impl Strategy<Value = Vec<Seg>> {
